@@ -57,7 +57,8 @@ FUEL = 200000
 
 VALUES = ['alpha', 'beta gamma', 'one two three four', 'a:b', 'x/y z', '', ' ', 'sec 1.2', 'nl\nsep two', ' lead', 'trail ', '12', 'v1.2-notes',
           'Ünï cödé', 'dup', 'dup', 'a  b', 'tab\tsep', 'Intro', 'Intro',
-          'The quick brown fox', '??', ':::', 'index', 'sect1', 'q.html', 'a b', 'a-b']
+          'The quick brown fox', '??', ':::', 'index', 'sect1', 'q.html', 'a b', 'a-b', 'nb\xa0sp two three', 'e\u0301 combining x',
+          'w1 w2 w3 w4 w5 w6 w7 w8 w9 w10 w11 w12']
 VARS = ['id', 'title', 'name', 'ref']
 LITS = ['sect', 'file-', '_', 'index', 'toc', 'n', 'a.b', 'x', '-', 'p_', 'v.', '.h', 'dir/', 'd.x/', 'images/img-']
 BADS = [None, [': #$%^&*!~`"\'=?/{}[]()|<>;\\,.', '-'], [' :/', '_'], [':/', '-'], ['', '-'],
@@ -85,7 +86,7 @@ def _gen_name(r, allow_vars, varpool, force_num=False, numonly=False):
             used.add(v)
             fmt = None
             if r.random() < 0.5:
-                fmt = r.choice([1, 2, 2, 3, 4]) if v != 'num' else r.choice([0, 1, 2, 3, 4])
+                fmt = r.choice([1, 2, 2, 3, 4, 10]) if v != 'num' else r.choice([0, 1, 2, 3, 4, 12])
                 if v != 'num' and r.random() < 0.05:
                     fmt = 0
             parts.append(['var', v, fmt, r.random() < 0.4])
